@@ -99,7 +99,7 @@ func caseList(r *mon.Runner) []mon.CaseSpec {
 		add(s)
 	}
 	for _, p := range hx.AllProtos {
-		for _, tr := range effTrans {
+		for _, tr := range hx.Transports { // cheap (nothing connects): every transport in both tiers
 			add(spec{Kind: "inherit", Proto: p, Tran: tr})
 		}
 	}
